@@ -90,3 +90,47 @@ Corollary session_correct_cot (pi_of_key : list N -> N -> N) g0 g1 Delta E p mal
 Proof.
   intros HD. apply session_correct_any_ot. apply cot_ot_correct. exact HD.
 Qed.
+
+(* ---- Chou-Orlandi as an [ot]: any abelian group with scalar multiplication,
+   any mask derivation, sender scalar [a], receiver scalars from a stream *)
+From Mpc Require Import OT.Co OT.CoProof.
+
+Section CoOT.
+  Variables (G : Type) (gadd : G -> G -> G) (gneg : G -> G) (gzero : G) (smul : N -> G -> G) (Gen : G).
+  Variable kdf : G -> N -> N.
+  Hypothesis gadd_assoc : forall P Q R, gadd (gadd P Q) R = gadd P (gadd Q R).
+  Hypothesis gadd_zero : forall P, gadd P gzero = P.
+  Hypothesis gadd_neg : forall P, gadd P (gneg P) = gzero.
+  Hypothesis smul_add : forall a P Q, smul a (gadd P Q) = gadd (smul a P) (smul a Q).
+  Hypothesis smul_comm : forall a b P, smul a (smul b P) = smul b (smul a P).
+  Variables (a : N) (sc : nat -> N).
+
+  Definition co_ot (ws : list wire) (ys : list bool) : option (list N) :=
+    co_transfer G gadd gneg smul Gen kdf a (map sc (seq 0 (length ys))) ys ws.
+
+  Theorem co_ot_correct : ot_correct co_ot.
+  Proof.
+    intros ws ys HL. unfold co_ot, ideal_ot.
+    apply (co_correct G gadd gneg gzero smul Gen kdf gadd_assoc gadd_zero gadd_neg smul_add smul_comm).
+    - rewrite map_length, seq_length. reflexivity.
+    - exact HL.
+  Qed.
+End CoOT.
+
+Corollary session_correct_co (pi_of_key : list N -> N -> N)
+          (G : Type) (gadd : G -> G -> G) (gneg : G -> G) (gzero : G) (smul : N -> G -> G) (Gen : G)
+          (kdf : G -> N -> N) (a : N) (sc : nat -> N)
+          (rnd : nat -> N) (key : list N) (scratch : list wire) (c : circ2) (x y : list bool) :
+  (forall P Q R, gadd (gadd P Q) R = gadd P (gadd Q R)) ->
+  (forall P, gadd P gzero = P) ->
+  (forall P, gadd P (gneg P) = gzero) ->
+  (forall a P Q, smul a (gadd P Q) = gadd (smul a P) (smul a Q)) ->
+  (forall a b P, smul a (smul b P) = smul b (smul a P)) ->
+  wf2 c = true -> length x = n0 c -> length y = n1 c ->
+  let r := Codec.split_bits (outs c) (Codec.bits_to_N (eval_plain (cc c) (x ++ y))) in
+  exists g2e e2g,
+    run_session pi_of_key (co_ot G gadd gneg smul Gen kdf a sc) rnd key scratch c x y = Ok r r g2e e2g.
+Proof.
+  intros H1 H2 H3 H4 H5. apply session_correct_any_ot.
+  apply (co_ot_correct G gadd gneg gzero smul Gen kdf H1 H2 H3 H4 H5).
+Qed.
